@@ -235,7 +235,7 @@ def gen_track_kw(rng, kind: str, nseg: int) -> dict:
               encrypted=enc, iv_size=rng.choice([8, 16]), base=base,
               track_id=1 if kind == "video" else 2, start_number=rng.choice([1, 1, 1, 0, 7]),
               payload_size=rng.choice([20, 60, 300, 900, 2500]), seed=rng.randrange(1 << 30),
-              traf_order=rng.choice(["trun_first", "senc_first"]),
+              traf_order=rng.choice(TRAF_ORDERS) if enc else "trun_first",
               sample_durations_in=rng.choice(["trun", "trun", "tfhd", "trex"]),
               trun_cto=rng.random() < .2, extra_traf_box=rng.random() < .3,
               with_mehd=rng.random() < .7)
@@ -251,6 +251,20 @@ def gen_stream_spec(rng) -> dict:
     nseg = rng.choice([2, 3, 4])
     return {"video": gen_track_kw(rng, "video", nseg), "audio": gen_track_kw(rng, "audio", nseg),
             "aligned": rng.random() < .35}
+
+
+def _perms(xs):
+    if len(xs) <= 1:
+        return [list(xs)]
+    return [[x] + r for i, x in enumerate(xs) for r in _perms(xs[:i] + xs[i + 1:])]
+
+
+# every legal order of the four sample-description children of an encrypted traf (senc in front of /
+# behind saiz and saio, trun first / last / in between) plus stored PIFF uuid clones at several positions
+TRAF_PERMS = [",".join(p) for p in _perms(["trun", "saiz", "saio", "senc"])]
+TRAF_PIFF = ["trun,saiz,saio,piff,senc", "trun,senc,piff,saiz,saio", "piff,saiz,saio,senc,trun",
+             "senc,saiz,piff,saio,trun", "saiz,saio,senc,trun,piff", "trun,piff,senc,saio,saiz"]
+TRAF_ORDERS = TRAF_PERMS + TRAF_PIFF
 
 
 def fixed_specs() -> list[dict]:
@@ -274,6 +288,13 @@ def fixed_specs() -> list[dict]:
                                 "audio": dict(common_kw, timescale=48000, durations=[96000] * 4,
                                               samples_per_segment=[5, 5, 5, 5], track_id=2),
                                 "aligned": aligned})
+    # one encrypted single-track stream per traf child order
+    for j, order in enumerate(TRAF_ORDERS):
+        out.append({"video": dict(timescale=240, durations=[960, 1000], samples_per_segment=[3, 4], encrypted=True,
+                                  iv_size=8 if j % 2 else 16, subsamples=True, traf_order=order, payload_size=40,
+                                  with_tfdt=(j % 3 != 0), with_styp=(j % 2 == 0), with_sidx=(j % 2 == 0),
+                                  saio_version=j % 2, extra_traf_box=(j % 4 == 0), seed=8000 + j),
+                    "audio": None, "aligned": j % 5 == 0})
     return out
 
 
@@ -662,7 +683,8 @@ def channels(ctx):
     for spec in fixed_specs():
         for t in synth_stream(spec):
             for k in range(1, t.nseg + 1):
-                for ov in ([{"drm": "all"}, {"drm": "clearkey", "bugs": "saio"}] if t.enc else
+                for ov in ([{"drm": "all"}, {"drm": "clearkey", "bugs": "saio"}, {"drm": "playready", "playready__piff": "0"},
+                            {"drm": "playready", "playready__version": "1.0", "bugs": "saio"}] if t.enc else
                            [{}, {"events": "ping", "ping__interval": "50"}]):
                     if "events" in ov and t.kind != "video":
                         continue
@@ -673,24 +695,60 @@ def channels(ctx):
     yield ch
 
 
-def search(ctx, disagreements):
-    """Layer C: start from the disagreeing inputs, then widen"""
-    seeds = [d["case"] for d in disagreements if isinstance(d, dict) and "case" in d]
-    for c in seeds:
+def neighbours(case: dict) -> list[dict]:
+    """requests close to a disagreeing one: the same track and URL shape without `bugs=saio`
+    (a disagreement that is visible only in the stale value the bug option permits is often the
+    shadow of a wrong offset that the property forbids without the option), with PlayReady/PIFF
+    forced, and – for vod – every other segment of the track"""
+    out = [case]
+    t = track_of(case["src"])
+    extra = {k: v for k, v in urllib.parse.parse_qsl(case["url"].partition("?")[2], keep_blank_values=True)
+             if k not in case["ov"]}
+    path = case["url"].partition("?")[0]
+    ovs = [{k: v for k, v in case["ov"].items() if k != "bugs"}]
+    if t.enc:
+        ovs.append({"drm": "playready", "playready__piff": "1"})
+        ovs.append({"drm": "all", "playready__version": "1.0"})
+    for ov in ovs:
+        out.append(dict(case, ov=ov, url=path + "?" + query_of(dict(ov, **extra))))
+        if case["mode"] == "vod" and case["addr"] == "number":
+            for k in range(1, t.nseg + 1):
+                out.append(dict(case, ov=ov, url=vod_url(t, k, ov, "number")))
+    return out
+
+
+def _failing(c: dict):
+    try:
         r = run_case(c)
-        if r["fails"]:
-            mini = shrink(c)
-            return {"case": case_json(mini), "failures": run_case(mini)["fails"] or r["fails"]}
+    except Exception:
+        return None
+    if r["fails"]:
+        mini = shrink(c)
+        return {"case": case_json(mini), "failures": run_case(mini)["fails"] or r["fails"]}
+    return None
+
+
+def search(ctx, disagreements):
+    """Layer C: the oracle on the disagreeing inputs and their neighbourhood first, then a wider sweep"""
+    seeds = [d["case"] for d in disagreements if isinstance(d, dict) and "case" in d]
+    seen = set()
+    for c in seeds[:40]:
+        for n in neighbours(c):
+            key = (json.dumps(n["src"], sort_keys=True), n["url"], n["now"])
+            if key in seen:
+                continue
+            seen.add(key)
+            f = _failing(n)
+            if f:
+                return f
     rng = ctx.rng("search")
-    tracks = all_tracks(rng, 150)
-    for c in gen_cases(rng, tracks, 6000 if not ctx.thorough else 20000, live_share=.3):
-        try:
-            r = run_case(c)
-        except Exception:
-            continue
-        if r["fails"]:
-            mini = shrink(c)
-            return {"case": case_json(mini), "failures": run_case(mini)["fails"] or r["fails"]}
+    tracks = all_tracks(rng, 60 if not ctx.thorough else 200)
+    for spec in fixed_specs():
+        tracks += synth_stream(spec)
+    for c in gen_cases(rng, tracks, 2500 if not ctx.thorough else 20000, live_share=.3):
+        f = _failing(c)
+        if f:
+            return f
     return None
 
 
